@@ -182,8 +182,10 @@ func (al *agentListener) serv(c *conn2) {
 			ac := &agentConnection{
 				Laddr: v.Laddr,
 				Raddr: v.Raddr,
-				in:    make(chan []byte),
-				out:   out,
+				// holds one notification: the receiver never blocks, and a reader that has not
+				// started to wait yet must still find it
+				in:  make(chan []byte, 1),
+				out: out,
 			}
 
 			// an earlier connection with the same addresses (closed by its service, never ended by
